@@ -455,6 +455,10 @@ impl<'tcx> TyGenContext<'_, 'tcx> {
                             Some(id) => {
                                 let type_name = self.formatter.fmt_type_name(id);
                                 self.add_import(type_name.clone(), None, super::gen::ImportUsage::Both);
+                                if self.tcx.resolve_type(id).attrs().disable {
+                                    self.errors
+                                        .push_error(format!("Found usage of disabled type {type_name}"))
+                                }
                                 type_name
                             }
                             None => self.gen_js_type_str(e),
